@@ -84,7 +84,9 @@ pub fn blocks(thorough: bool) -> Vec<Block> {
         b.push(Block::new(crate::props::c05::u_rep_single(&["\u{e9}", "\u{1f4a9}", "a"], 6), esc(&[R, R | X]), "{e, e+u} x {r, r+x}"));
         b.push(Block::new(crate::props::c05::u_rep_single(&["\u{10000}", "\u{10ffff}", "\u{ffff}"], 5), esc(&[R]), "{e, e+u} x r"));
         b.push(Block::new(Universe::new("U_pairs{e9,1f4a9,a}^<=4", &["\u{e9}", "\u{1f4a9}", "a"], 4, 2, false), esc(&[R, R | X]), "{e, e+u} x {r, r+x}"));
+        b.push(Block::new(crate::props::c05::u_rep_single(&["1", "\u{20ac}", " ", "\u{1f4a9}"], 6), esc(&[R | D, R | S, R | NW, R | D | I]), "{e, e+u} x {r+d, r+s, r+W, r+d+i} (class tokens and non-ASCII characters in one repeated unit)"));
     } else {
+        b.push(Block::new(crate::props::c05::u_rep_single(&["1", "\u{20ac}", " ", "\u{1f4a9}"], 7), esc(&[R | D, R | S, R | NW, R | D | I, R | W | X]), "{e, e+u} x 5 bases"));
         b.push(Block::new(crate::props::c05::u_rep_single(&["\u{e9}", "\u{1f4a9}", "a"], 8), esc(&[R, R | X, R | I, R | G]), "{e, e+u} x {r, r+x, r+i, r+g}"));
         b.push(Block::new(crate::props::c05::u_rep_single(&["\u{10000}", "\u{10ffff}", "\u{ffff}", "\u{80}"], 6), esc(&[R, R | X]), "{e, e+u} x {r, r+x}"));
         b.push(Block::new(Universe::new("U_pairs{e9,1f4a9,a}^<=4", &["\u{e9}", "\u{1f4a9}", "a"], 4, 2, false), esc(&[R]), "{e, e+u} x r"));
